@@ -27,7 +27,55 @@ def obligations(tier, seed):
     obs += cli_obligations(tier, seed)
     obs += include_obligations()
     obs += random_line_obligations(tier, seed)
+    obs += definition_graph_obligations(tier, seed)
     return obs
+
+
+def definition_graph_obligations(tier, seed):
+    """programs whose EQU definitions refer to one another (self loops, rings, chains into rings, rings through
+    expressions, definitions through labels) x every kind of use site: always an image or a diagnostic, never a hang"""
+    from vlib.harness import assemble
+    graphs = {
+        "self": ["S EQU S"],
+        "ring2": ["S EQU T", "T EQU S"],
+        "ring3": ["S EQU T", "T EQU U", "U EQU S"],
+        "chain-into-ring": ["S EQU A1", "A1 EQU A2", "A2 EQU A1"],
+        "ring-expr": ["S EQU T+1", "T EQU S+1"],
+        "self-expr": ["S EQU S+1"],
+        "chain3": ["S EQU T", "T EQU U", "U EQU 5"],
+        "chain-label": ["S EQU T", "T EQU HERE"],
+        "label-expr": ["S EQU HERE+2"],
+        "expr-of-expr": ["S EQU T+1", "T EQU 2*3"],
+        "neg": ["S EQU -5"],
+        "undefined": ["S EQU NOWHERE"],
+        "undefined-expr": ["S EQU NOWHERE+1"],
+        "dup-ring": ["S EQU T", "T EQU S", "T EQU 5"],
+    }
+    uses = ["LDA S", "LDX #S", "LDA #S", "LDA S,X", "LEAX S,PCR", "LDA [S]", "LDA [S,Y]", "FCB S", "FDB S", "RMB S", "LDA S+1", "LDX #S-1",
+            "LDA S*2,U", "FDB S+1", "BRA S", "LBSR S", "LDA <S", "LDA >S", "JMP [S,PCR]", "FCB 1,S", "ORG S", "SETDP S", "Z EQU S", "END S", ""]
+    out = []
+    for gname, defs in graphs.items():
+        def body(ctx, defs=defs, gname=gname):
+            bad = []
+            for use in uses:
+                for order in (0, 1):
+                    body_lines = ["HERE NOP"] + ([" " + use] if use and not use.startswith("Z ") else ([use] if use else [])) + ["THERE NOP"]
+                    lines = (defs + body_lines) if order == 0 else (body_lines + defs)
+                    o = assemble(lines, wall_limit=10)
+                    if o.kind in ("ok", "diag"):
+                        continue
+                    if ctx.known(PID, {"part": "defgraph"}, {"kind": o.kind, "exc": o.exc_name, "site": o.site, "use": use, "graph": gname}):
+                        continue
+                    bad.append((lines, o.describe()))
+                if len(bad) > 3:
+                    break
+            return len(bad) == 0, {"graph": gname, "bad": bad}
+        ob = Ob("C13:defgraph:" + gname, body, timeout=900, tags={"part": "defgraph"},
+                text="EQU definition graph %s x %d use sites x 2 orders (enumeration)" % (defs, len(uses)), r4=False)
+        ob.native_only = True
+        ob.ncases = len(uses) * 2
+        out.append(ob)
+    return out
 
 
 ALPHABET = "ABXYDUSPCRabxyz019 \t;,#$%<>[]+-*/'\"@:.()=!?&^_"
